@@ -10,7 +10,9 @@ func init() {
 		ID: "C09",
 		Jobs: func(tier string, seed int64) []Job {
 			var jobs []Job
-			j := func(f string, a ...string) { jobs = append(jobs, Job{Prop: "C09", Pkg: "eval", Func: f, Args: a, MaxDec: 800}) }
+			j := func(f string, a ...string) {
+				jobs = append(jobs, Job{Prop: "C09", Pkg: "eval", Func: f, Args: a, MaxDec: 800})
+			}
 			for _, L := range []int{0, 1, 2, 3, 4, 9, 16, 257} {
 				j("VerifGuardSize", "arrmul", strconv.Itoa(L))
 				j("VerifGuardSize", "strmul", strconv.Itoa(L))
@@ -45,11 +47,11 @@ func init() {
 			return jobs
 		},
 		HangLabels: []string{"guard/guarded-size-wrapped", "guard/guarded-size-is-exact-product", "guard/negative-count-reaches-guard", "guard/large-result-built-without-guard", "cancel/evaluation-continues-after-cancellation"},
-		Budget: map[string]time.Duration{"quick": 6 * time.Minute, "thorough": 40 * time.Minute},
-		Reach:  []string{"refused by the memory guard", "refused with an error", "result built", "guard reached", "cancelled during evaluation", "max depth reported", "completed within the limit"},
+		Budget:     map[string]time.Duration{"quick": 6 * time.Minute, "thorough": 40 * time.Minute},
+		Reach:      []string{"refused by the memory guard", "refused with an error", "result built", "guard reached", "cancelled during evaluation", "max depth reported", "completed within the limit"},
 		Bounds: map[string]interface{}{"guard_arithmetic": "array * n and string * n for operand lengths 0,1,2,3,4,9,16,257 and ALL int64 n, free memory = an arbitrary int64 (object.FreeMemory replaced by a nondeterministic stub); result sizes above 8 are not materialised by the executor (reported bound-exceeded)",
-			"cancellation":    "8 programs (loops, recursion, non-terminating loop, unbounded recursion, container operators); the context's Err() turns non-nil at the k-th call for every k in 0..40 (120 thorough)",
-			"depth":           "4 recursion shapes (direct, mutual, closure chain, nested expressions), MaxDepth every value in 10..24 (60 thorough), recursion depth 0..24"},
+			"cancellation": "8 programs (loops, recursion, non-terminating loop, unbounded recursion, container operators); the context's Err() turns non-nil at the k-th call for every k in 0..40 (120 thorough)",
+			"depth":        "4 recursion shapes (direct, mutual, closure chain, nested expressions), MaxDepth every value in 10..24 (60 thorough), recursion depth 0..24"},
 		Assumptions: []string{"time, resident memory and the Go stack are not modelled: the claim is about the arithmetic and control flow the guards rely on (DESIGN §4 C09, §6)"},
 		Outside:     []string{"wall-clock deadline in seconds, process memory within a constant factor, real stack exhaustion, the parser's recursion on deeply nested source text, extension callbacks"},
 	})
